@@ -21,8 +21,10 @@ import json
 import math
 import multiprocessing as mp
 import os
+import signal
 import subprocess
 import sys
+import threading
 import time
 import traceback
 
@@ -127,16 +129,45 @@ def _init_worker(pid, tmpbase=None):
     _MOD = load_prop(pid)
 
 
+class CaseCpuLimit(BaseException):
+    """Raised inside a case by the CPU-time watchdog (BaseException: harness code catching Exception cannot swallow it)."""
+
+
+def _on_sigprof(signum, frame):
+    raise CaseCpuLimit
+
+
 def run_one(mod, case) -> dict:
+    """Run one case.  A watchdog on the *CPU time of this process* (not wall time, so machine load cannot trip it) turns a
+    case that does not come back into a reported failure instead of a check that never ends."""
     rec = Rec()
+    limit = float(os.environ.get('VERIF_CASE_CPU_S', '1800') or 0)
+    armed = False
+    if limit and threading.current_thread() is threading.main_thread() and hasattr(signal, 'ITIMER_PROF'):
+        signal.signal(signal.SIGPROF, _on_sigprof)
+        signal.setitimer(signal.ITIMER_PROF, limit)
+        armed = True
+    c0 = time.process_time()
+    timed_out = False
     try:
-        mod.run_case(case, rec)
+        try:
+            mod.run_case(case, rec)
+        finally:
+            if armed:
+                signal.setitimer(signal.ITIMER_PROF, 0)
+    except CaseCpuLimit:
+        timed_out = True
+        rec.viol('no_result', 'cpu_limit_exceeded', f'the case did not come back within {limit:.0f} s of CPU time (VERIF_CASE_CPU_S); the slowest case on the unchanged tree needs a small fraction of that')
     except Exception as e:  # noqa: BLE001 - anything escaping the harness is reported
         tb = traceback.format_exc(limit=6)
         rec.viol('uncaught', type(e).__name__, f'{e}\n{tb}')
     if rec.states == 0:
         rec.states = 1
-    return rec.summary()
+    out = rec.summary()
+    out['cpu_s'] = time.process_time() - c0
+    if timed_out:
+        out['timed_out'] = True
+    return out
 
 
 def _run_chunk(args):
@@ -144,6 +175,9 @@ def _run_chunk(args):
     out = []
     for k, case in enumerate(chunk):
         s = run_one(_MOD, case)
+        if s.get('timed_out'):
+            out.append((idx0 + k, s))
+            break  # the parent stops the exploration: whatever state the library is in now, it is not a known one
         if k < recheck:
             s2 = run_one(_MOD, case)
             if s2['obs'] != s['obs'] or s2['nviol'] != s['nviol']:
@@ -233,8 +267,12 @@ def explore(pid, tier, workers=None, limit=None):
         if nworkers == 1:
             _init_worker(pid, tmpbase)
             for t in tasks:
-                for i, s in _run_chunk(t):
+                out = _run_chunk(t)
+                for i, s in out:
                     results[i] = s
+                if any(s.get('timed_out') for _, s in out):
+                    capped = True
+                    break
                 if budget and time.time() - t0 > budget:
                     capped = True
                     break
@@ -244,6 +282,10 @@ def explore(pid, tier, workers=None, limit=None):
                 for out in pool.imap_unordered(_run_chunk, tasks):
                     for i, s in out:
                         results[i] = s
+                    if any(s.get('timed_out') for _, s in out):
+                        capped = True
+                        pool.terminate()
+                        break
                     if budget and time.time() - t0 > budget:
                         capped = True
                         pool.terminate()
@@ -343,7 +385,8 @@ def explore(pid, tier, workers=None, limit=None):
         'outcome_classes': dict(sorted(classes.items())),
         'distinct_outcome_classes': len(classes),
         'workers': nworkers,
-        'cap_hit': ('wall-clock budget %.0fs' % budget) if capped else None,
+        'cap_hit': (('wall-clock budget %.0fs' % budget) if budget else 'stopped after a case exceeded the CPU limit') if capped else None,
+        'max_case_cpu_s': round(max((results[i].get('cpu_s', 0.0) for i in done), default=0.0), 3),
         'known_finding_occurrences': dict(known_hits),
         'new_violation_groups': [f'{a}/{b}' for a, b in groups],
         'bound': getattr(mod, 'BOUND', {}).get(tier) if hasattr(mod, 'BOUND') else None,
